@@ -171,4 +171,18 @@ Section Resize.
       eapply post_weaken; [exact (vabs_drop_other cfg Htracked s1 v l' value A B1 C)| |auto].
       intros u s2 (A2 & _ & _). exists l'. split; [exact A2|exact Hl'].
   Qed.
+  (* the premise of the translator tie EquivResize.resize_equiv: where resize_abs applies the body's loop
+     never runs out of the machine's fuel *)
+  Corollary resize_body_fuel s v l value n :
+    vabs s v l -> ledger s value = Live -> value < next_elem s -> ~ In value l ->
+    mem value (clone_panics s) = false ->
+    0 <= n -> n - Z.of_nat (List.length l) <= 1000000 ->
+    fst (resize_body cfg ncap v n value s) <> OutOfFuel.
+  Proof.
+    intros Hab Hlive Hold Hnot Hcp Hn Hsmall.
+    pose proof (resize_abs s v l value n Hab Hlive Hold Hnot Hcp Hn Hsmall) as H. cbv zeta in H.
+    unfold resize, try_finally in H.
+    destruct (resize_body cfg ncap v n value s) as [[u| | | | |] s'] eqn:E; simpl; try discriminate.
+    simpl in H. contradiction.
+  Qed.
 End Resize.
